@@ -204,7 +204,22 @@ impl CharInfoEmitter {
     }
     pub fn lines_for(&mut self, req: &str) -> Vec<String> {
         let mut out = vec![];
-        // key tokens are hex byte strings: the characters they encode need a line too
+        // key tokens are hex byte strings: the characters they encode need a line too — also the
+        // ones whose bytes are split over consecutive tokens (the decoder joins them)
+        let mut joined: Vec<u8> = vec![];
+        for tok in req.split(' ') {
+            if tok.len() >= 2 && tok.len() % 2 == 0 && tok.bytes().all(|b| b.is_ascii_hexdigit()) {
+                joined.extend((0..tok.len()).step_by(2).filter_map(|i| u8::from_str_radix(&tok[i..i + 2], 16).ok()));
+            } else {
+                joined.push(b' ');
+            }
+        }
+        for start in 0..4usize.min(joined.len()) {
+            // every alignment: an invalid byte may swallow the lead byte of the next character
+            for c in String::from_utf8_lossy(&joined[start..]).chars() {
+                self.emit_closure(c, &mut out);
+            }
+        }
         for tok in req.split(' ') {
             if tok.len() >= 2 && tok.len() % 2 == 0 && tok.bytes().all(|b| b.is_ascii_hexdigit()) {
                 let bytes: Vec<u8> =
